@@ -174,7 +174,12 @@ impl Observer for Obs {
                 if w.parties[s].g().commit_required() || w.parties[m].g().current_epoch() != w.parties[s].g().current_epoch() {
                     return Ok(());
                 }
-                let n = 2 + (op[3] % 3) as usize;
+                // now and then the burst is as long as the receiver may jump ahead (1024 generations) or one short of it: the
+                // oldest skipped key is then as far behind the ratchet as a key can be
+                let n = if op[3] % 8 == 7 { 1024 + (op[4] % 2) as usize } else { 2 + (op[3] % 3) as usize };
+                if n > 1000 {
+                    self.ev.class("bursts_as_long_as_the_look_ahead_window");
+                }
                 let mut fl = vec![];
                 for i in 0..n {
                     w.send_app(s, vec![i as u8; 4 + i], vec![]).map_err(|e| op_failure(P, "encrypt_application_message", &e))?;
@@ -208,6 +213,15 @@ impl Observer for Obs {
             }
             5 | 6 => self.save(w, m)?,
             _ => self.crash_check(w, m)?,
+        }
+        // storage level: a write that fails half-way (SQLite: a duplicate epoch record) leaves the stored state untouched
+        if op[4] % 4 == 0 {
+            let gid = w.group_id.clone();
+            match w.parties[m].gstore.failed_write_leaves_no_trace(&gid) {
+                None => {}
+                Some(Ok(())) => self.ev.class("failed_sqlite_writes_left_no_trace"),
+                Some(Err(d)) => return Err(fail("failed_write_changed_stored_state", format!("party {m}: {d}"))),
+            }
         }
         self.check_background(w)
     }
@@ -285,7 +299,7 @@ pub fn run(ctx: &Ctx) -> ! {
          loaded from a copy of the storage and fed the same incoming messages as long as the member only receives). Oracles: (1) loaded state == state at the moment of the last write under \
          canonical equality, incl. pending commit, cached and own proposals, pending updates; (2) the reloaded member goes on in the history (agreement, cross-decryption, applying its restored \
          pending commit); (3) member and twin stay canonically equal after every delivery; (4) the tee store compares every state/epoch/max_epoch_id answer and, after every write, the full set of \
-         retrievable epochs of both shipped providers. Crash points are at API-call granularity. Non-trivial = reload with pending commit / cached proposals / pending update, or crash check with lost epochs.",
+         retrievable epochs of both shipped providers. Bursts as long as the 1024-generation look-ahead window precede some reloads; on a deep copy of a SQLite store, a write with an already stored epoch record fails and must leave snapshot and records as they were. Crash points are at API-call granularity. Non-trivial = reload with pending commit / cached proposals / pending update, or crash check with lost epochs.",
         &hp,
         spec,
         &|case, ev| Obs { ev, rng: SplitMix::new(((case.c(7) as u64) << 16) | case.c(8) as u64, 6), saved: BTreeMap::new(), reloads: 0, crash_checks: 0 },
